@@ -297,6 +297,17 @@ example : ((importBlock (Toy.chain true) Toy.cfg false (Toy.forked true) Toy.b2b
            (importBlock (Toy.chain true) Toy.cfg false (Toy.forked true) Toy.b2badRoot).2.head)
         = ((Toy.forked true).log.length, (Toy.forked true).head) := by decide
 
+/-- **What is stored is the block that was handed in.**  `WriteBlockWithState` stores, under the block's hash, exactly the input
+    block (header, transactions, uncles).  In this functional model the input cannot be changed by an import; for the real node
+    that is a checked correspondence: the harness records every block's RLP bytes before any import and requires (i) the shared
+    in-memory objects to encode to the same bytes after every history, (ii) the body read back from the database after a
+    restart to match the header's transaction root and uncle hash (the seeded change C01-9 — CALLVALUE handing out the
+    transaction's own big.Int — breaks both). -/
+theorem write_stores_input_block (C : ChainComp St Tx) (S : Store St Tx) (b : Block Tx) (p : Processed St) (coin : Bool) :
+    ((writeBlockWithState C S b p coin).blocks (C.hashHeader b.header)).map (·.block) = some b := by
+  unfold writeBlockWithState
+  simp only [upd_same, Option.map_some]
+
 /-! ## 5. The result of an import is a function of (parent state, block) -/
 
 /-- For EVERY arrival history — any sequence of batches (any split, any interleaving of forks, known blocks re-sent),
